@@ -17,6 +17,7 @@ import shutil
 import tempfile
 from datetime import datetime, timedelta
 
+from vh import core
 from vh.core import import_searchkit
 
 GZIP_MAGIC = b'\x1f\x8b'
@@ -302,8 +303,16 @@ def _observe_run(built, fs, results, K):
             sections[d['tag']] = sorted(
                 ([[r.tag, r.linenumber, [canon_val(v) for v in r]] for r in sec]
                  for sec in found.values()), key=repr)
+    owners = {}
+    for path in results.files:
+        for r in results.find_by_path(path):
+            if r.section_id is not None:
+                owners.setdefault(r.section_id, set()).add(path)
     return {'paths': observe_collection(built, results, K),
             '_def_ids': built.def_ids,
+            # section ids that occur under more than one path (sections of different files
+            # would merge in the collection's sequence lookups)
+            '_shared_section_ids': sorted(str(k) for k, v in owners.items() if len(v) > 1)[:3],
             'sections': sections,
             'stats': {'lines': st['lines_searched'], 'results': st['results'],
                       'searches': st['searches'],
@@ -321,11 +330,28 @@ def pub(obs):
 def run_impl(scn):
     """ one fresh set of objects, one run() """
     tmpdir = tempfile.mkdtemp(prefix='vh-')
+    # one run in eight has the application's debug logging switched on (records really
+    # formatted); decided from the scenario itself so that a replay does the same
+    dbg = int(core.digest(pub(scn)), 16) % 8 == 0
+    # one run in five with the task's flush threshold (NUM_BUFFERED_RESULTS, 10000 in the code)
+    # set to a handful, so that the mid-task hand-over paths - a flush in the middle of the
+    # line loop and in the middle of the end-of-file sequence processing - are crossed by
+    # ordinary small files; only the constant is set, and restored
+    flush = scn.get('_flush')
+    if flush is None and int(core.digest(pub(scn)), 16) % 5 == 1:
+        flush = [3, 7, 10, 25][int(core.digest(pub(scn)), 16) // 5 % 4]
+    import_searchkit()
+    from searchkit import task as _TK
+    old_flush = _TK.NUM_BUFFERED_RESULTS
     try:
-        built = Built(scn, tmpdir)
-        fs = built.searcher()
-        return run_searcher(built, fs, scenario_K(scn))
+        if flush:
+            _TK.NUM_BUFFERED_RESULTS = flush
+        with core.debug_logging(dbg):
+            built = Built(scn, tmpdir)
+            fs = built.searcher()
+            return run_searcher(built, fs, scenario_K(scn))
     finally:
+        _TK.NUM_BUFFERED_RESULTS = old_flush
         shutil.rmtree(tmpdir, ignore_errors=True)
 
 
